@@ -1,5 +1,6 @@
 """C20 Passwords never reach the logs"""
 import ast
+import copy
 from ..model import *
 from ..util import *
 from ..facts import *
@@ -363,56 +364,107 @@ def rule_client(ctx):
     ctx.rule("C20.CLI", "client: a command built from the password is sent with censor_after == len(non-secret prefix); command() logs the full string only when censor_after is falsy")
     login = p.method("Client", "login")
     cmdm = p.method("BaseClient", "command")
-    tl = taint_names(login, {"password"})
+    # symbolic walk of every path through login(): the latest value expression of each local is substituted forward (rows of a
+    # lookup table are tried one by one, the same row for all names unpacked from it), so at each command() call the command
+    # string and the censor index are expressions over the parameters: a command containing the password must start with a
+    # literal prefix and be sent with 0 < censor_after <= len(prefix)
     n_secret = 0
-    for c in walk_no_nested(login):
-        if isinstance(c, ast.Call) and isinstance(c.func, ast.Attribute) and c.func.attr == "command" and c.args:
-            if not under_len_only(c.args[0], tl):
+    seen_cases = set()
+
+    class _Sub(ast.NodeTransformer):
+        def __init__(self, env):
+            self.env = env
+
+        def visit_Name(self, node):
+            if isinstance(node.ctx, ast.Load) and node.id in self.env:
+                return copy.deepcopy(self.env[node.id])
+            return node
+
+    def subst(e, env):
+        return _Sub(env).visit(copy.deepcopy(e))
+
+    def check_call(c, env):
+        nonlocal n_secret
+        arg0 = subst(c.args[0], env)
+        if not under_len_only(arg0, {"password"}):
+            return
+        n_secret += 1
+        ca = kwarg(c, "censor_after", 3)
+        prefix = None
+        if isinstance(arg0, ast.BinOp) and isinstance(arg0.op, ast.Add):
+            lp, rest_ = literal_prefix(p, arg0, None)
+            if isinstance(lp, str) and lp and rest_ is not None:
+                prefix = lp
+        elif isinstance(arg0, ast.JoinedStr) and arg0.values and isinstance(arg0.values[0], ast.Constant) and isinstance(arg0.values[0].value, str):
+            prefix = arg0.values[0].value
+        cav = subst(ca, env) if ca is not None else None
+        cst = None
+        if isinstance(cav, ast.Constant):
+            cst = cav.value
+        elif isinstance(cav, ast.Call) and isinstance(cav.func, ast.Name) and cav.func.id == "len" and cav.args and isinstance(cav.args[0], ast.Constant) and isinstance(cav.args[0].value, str):
+            cst = len(cav.args[0].value)
+        key = (src(arg0), src(cav) if cav is not None else None)
+        if key in seen_cases:
+            return
+        seen_cases.add(key)
+        if ca is None:
+            ctx.fail("C20.CLI", c, "command built from the password sent without censor_after", construct="login:command without censor_after")
+            return
+        if prefix is None:
+            ctx.fail("C20.CLI", c, f"password command `{src(arg0)[:50]}` has no literal non-secret prefix the censor index could be checked against", construct="login:secret command form")
+            return
+        ok = isinstance(cst, int) and not isinstance(cst, bool) and 0 < cst <= len(prefix)
+        ctx.ob("C20.CLI", c, f"password command `{src(arg0)[:40]}` (prefix {prefix!r}, length {len(prefix)}) is sent with censor_after = {src(cav)}", ok,
+               f"password command has non-secret prefix {prefix!r} (length {len(prefix)}) but on some path through login() it is sent with censor_after = {src(cav)}: "
+               "the first characters of the password (or all of it) are logged", construct=f"login:censor_after={cst}")
+
+    def is_command_call(c):
+        return isinstance(c, ast.Call) and isinstance(c.func, ast.Attribute) and c.func.attr == "command" and c.args
+
+    def walk_path(evs, k, env, budget):
+        while k < len(evs):
+            e = evs[k]
+            k += 1
+            if e[0] == "branch":
+                for c in walk_self(e[1]):
+                    if is_command_call(c):
+                        check_call(c, env)
                 continue
-            n_secret += 1
-            ca = kwarg(c, "censor_after", 3)
-            if ca is None:
-                ctx.fail("C20.CLI", c, "command built from the password sent without censor_after", construct="login:command without censor_after")
+            if e[0] != "stmt":
                 continue
-            # every definition of the command variable that uses the password: literal prefix + secret, and in the same block censor_after = len(prefix)
-            cmd_expr = c.args[0]
-            defs = []
-            if isinstance(cmd_expr, ast.Name):
-                defs = [n for n in walk_no_nested(login) if isinstance(n, ast.Assign) and any(isinstance(t_, ast.Name) and t_.id == cmd_expr.id for t_ in n.targets)]
-            else:
-                defs = [ast.Assign(targets=[ast.Name(id="_")], value=cmd_expr)]
-            for n in defs:
-                v = n.value
-                if not under_len_only(v, {"password"} | (tl - {cmd_expr.id if isinstance(cmd_expr, ast.Name) else ""})):
-                    continue
-                prefix = None
-                if isinstance(v, ast.BinOp) and isinstance(v.op, ast.Add) and isinstance(v.left, ast.Constant) and isinstance(v.left.value, str) and not under_len_only(v.left, tl):
-                    prefix = v.left.value
-                elif isinstance(v, ast.JoinedStr) and v.values and isinstance(v.values[0], ast.Constant):
-                    prefix = v.values[0].value
-                if prefix is None:
-                    ctx.fail("C20.CLI", n, f"password command `{src(v)[:50]}` has no literal non-secret prefix the censor index could be checked against", construct="login:secret command form")
-                    continue
-                blk = p.parent.get(n)
-                body = None
-                for fld in ("body", "orelse"):
-                    if blk is not None and n in getattr(blk, fld, []):
-                        body = getattr(blk, fld)
-                cst = None
-                if isinstance(ca, ast.Constant):
-                    cst = ca.value
-                elif isinstance(ca, ast.Name) and body is not None:
-                    vals = [s_.value for s_ in body if isinstance(s_, ast.Assign) and isinstance(s_.targets[0], ast.Name) and s_.targets[0].id == ca.id]
-                    if vals:
-                        last = vals[-1]
-                        cst = last.value if isinstance(last, ast.Constant) else (len(last.args[0].value) if isinstance(last, ast.Call) and isinstance(last.func, ast.Name) and last.func.id == "len"
-                                                                                   and last.args and isinstance(last.args[0], ast.Constant) else None)
-                ok = isinstance(cst, int) and not isinstance(cst, bool) and 0 < cst <= len(prefix)
-                ctx.ob("C20.CLI", n, f"password command prefix {prefix!r} (length {len(prefix)}): censor_after on that branch is {cst}", ok,
-                       f"password command has non-secret prefix {prefix!r} (length {len(prefix)}) but censor_after is {cst if cst is not None else 'not set'} on that branch: "
-                       "the first characters of the password (or all of it) are logged", construct=f"login:censor_after={cst}")
+            n = e[1]
+            for c in walk_self(n):
+                if is_command_call(c):
+                    check_call(c, env)
+            if isinstance(n, ast.Assign) and len(n.targets) == 1:
+                t, v = n.targets[0], n.value
+                if isinstance(t, ast.Name):
+                    env = dict(env)
+                    env[t.id] = subst(v, env) if not isinstance(v, ast.Await) else ast.Name(id=f"<{t.id}>", ctx=ast.Load())
+                elif isinstance(t, ast.Tuple) and all(isinstance(x, ast.Name) for x in t.elts):
+                    sv = subst(v, env) if not isinstance(v, ast.Await) else v
+                    alts = None if isinstance(v, ast.Await) else ([sv] if isinstance(sv, ast.Tuple) else value_alternatives(p, sv, login))
+                    alts = [a_ for a_ in (alts or []) if isinstance(a_, (ast.Tuple, ast.List)) and len(a_.elts) == len(t.elts)]
+                    if alts and budget > 0:
+                        for a_ in alts:
+                            env2 = dict(env)
+                            for x, y in zip(t.elts, a_.elts):
+                                env2[x.id] = subst(y, env)
+                            walk_path(evs, k, env2, budget - 1)
+                        return
+                    env = dict(env)
+                    for x in t.elts:
+                        env[x.id] = ast.Name(id=f"<{x.id}>", ctx=ast.Load())
+            elif isinstance(n, ast.AugAssign) and isinstance(n.target, ast.Name):
+                env = dict(env)
+                env[n.target.id] = ast.BinOp(left=env.get(n.target.id, ast.Name(id=n.target.id, ctx=ast.Load())), op=n.op, right=subst(n.value, env))
+    login_paths = enum_paths(p, login, unroll=2)
+    ctx.paths_enumerated = getattr(ctx, "paths_enumerated", 0) + len(login_paths)
+    for evs, out in login_paths:
+        walk_path(evs, 0, {}, 6)
     if n_secret < 1:
         ctx.floor_errors.append("rule=C20.CLI: no secret command site found in Client.login (floor 1)")
+    tl = taint_names(login, {"password"})
     # other functions handling the password: context() forwards only to login; no logging of tainted values anywhere in client.py
     for cls in ("Client", "BaseClient"):
         for fn in p.methods(cls).values():
